@@ -91,6 +91,26 @@ pub tracked struct InLog { pub ghost lines: Seq<Seq<u8>> }
 pub uninterp spec fn bytes_of(s: String) -> Seq<u8>;
 pub assume_specification [std::string::String::as_bytes] (s: &String) -> (r: &[u8])
     ensures r@ == bytes_of(*s);
+// std integer helpers that vstd leaves unspecified: their documented meaning (exact and total), so that code written with
+// them stays inside the verified subset instead of ending undecided
+pub assume_specification [u8::overflowing_add] (a: u8, b: u8) -> (r: (u8, bool))
+    ensures r.0 as int == (a + b) % 0x100, r.1 == (a + b > u8::MAX);
+pub assume_specification [u8::overflowing_sub] (a: u8, b: u8) -> (r: (u8, bool))
+    ensures r.0 as int == (a - b) % 0x100, r.1 == (a < b);
+pub assume_specification [u16::overflowing_add] (a: u16, b: u16) -> (r: (u16, bool))
+    ensures r.0 as int == (a + b) % 0x10000, r.1 == (a + b > u16::MAX);
+pub assume_specification [u16::overflowing_sub] (a: u16, b: u16) -> (r: (u16, bool))
+    ensures r.0 as int == (a - b) % 0x10000, r.1 == (a < b);
+pub assume_specification [u32::overflowing_add] (a: u32, b: u32) -> (r: (u32, bool))
+    ensures r.0 as int == (a + b) % 0x1_0000_0000, r.1 == (a + b > u32::MAX);
+pub assume_specification [u32::overflowing_sub] (a: u32, b: u32) -> (r: (u32, bool))
+    ensures r.0 as int == (a - b) % 0x1_0000_0000, r.1 == (a < b);
+pub assume_specification [u16::swap_bytes] (a: u16) -> (r: u16)
+    ensures r as int == (a % 256) * 256 + a / 256;
+pub assume_specification [i8::wrapping_neg] (a: i8) -> (r: i8)
+    ensures r as int == (if a == i8::MIN { a as int } else { -(a as int) });
+pub assume_specification [i16::wrapping_neg] (a: i16) -> (r: i16)
+    ensures r as int == (if a == i16::MIN { a as int } else { -(a as int) });
 /// the characters a byte sequence decodes to (uninterpreted; nothing is decoded from nothing)
 pub uninterp spec fn chars_of(b: Seq<u8>) -> Seq<char>;
 pub mod verif_io {
